@@ -9,6 +9,7 @@ import Sonic.Proofs.NumberELPath
 import Sonic.Proofs.NumberNormalFast
 import Sonic.Proofs.NumberNormalFastPath
 import Sonic.Proofs.DecTake
+import Sonic.Proofs.NumberAllB
 
 /-!
 # C04 — numbers parse to the exact integer or the correctly rounded double
@@ -35,7 +36,11 @@ Proved here, for **all** buffers / numbers (no bound on digit counts or exponent
   `C04_normalfast_path_correct` is the end-to-end form (`parseNumber ... = .ok v n .normalfast → scanNumber ... = .ok v n`);
 * `C04_decimal_correct`, `C04_decimal_shift_exact`, `C04_native_path_correct`  the big-decimal fallback `AtofNative`
   (800-digit `Decimal`, `LeftShift`/`RightShift` with `LSHIFT_TAB`, `RoundedInteger`, `DecimalToF64`) returns the
-  correctly rounded double for texts of any length and never faults; known finding: `C04_native_guard_needed`.
+  correctly rounded double for texts of any length and never faults; known finding: `C04_native_guard_needed`;
+* `C04_parseNumber_correct` (master theorem: every path of `parseNumber` agrees with the reference — `NumAgrees`),
+  `C04_parseNumber_malformed`, `C04_parseNumber_shape` (any token, guard or not: ends at the token's end),
+  `C04_parseNumber_congr` (buffer independence), `C04_number_agrees_padded` (the same on the parser's buffer
+  `bs ++ x"x ++ pad`, hypotheses on the text `bs` only), `C04_native_never_faults` (all byte strings).
 
 Nothing of the conversion pipeline remains open: every path of `convert` (exact fast path, normal-fast, Eisel-Lemire with the
 `man`/`man+1` retry, big-decimal fallback) is proved against `Spec.Rne.round`.  One guard is needed and is a genuine observation
@@ -609,5 +614,76 @@ theorem C04_native_guard_needed :
       t.exp = none ∧ ∃ c r, rest = c :: r ∧
         ((t.fracDigits.isSome = true ∧ c = 46) ∨ (t.fracDigits = none ∧ Sonic.Spec.Number.isDigit c = true))) :=
   ⟨by decide +kernel, by decide +kernel, Sonic.Proofs.Dec.nativeGuard_false⟩
+
+
+/-! ## the whole number model -/
+
+open Sonic.Proofs.Parse (NumAgrees numOut NumOut BufAt)
+
+/-- **Master theorem: `parseNumber` agrees with the reference on every path.**  If the reference scanner finds the
+    token `t` at `start`, the token ends at or before `len` (`len_`; the parser calls `parseNumber` with the text
+    length, and the `len_ - pos_ + 1` bytes handed to `AtofNative` then contain the token), its written exponent is
+    below 100000 in magnitude (known finding F6) and the byte after it satisfies `nativeGuard` (known finding
+    `C04_native_guard_needed`), then whatever path `parseNumber` takes — `int` (all three integer kinds and
+    `-(double)man`), `zero`, `fast`, `normalfast`, `el`, `el2`, `native` — its outcome agrees with the reference:
+    same kind and value, same end index with `start < next ≤ len`, and `kParseErrorInfinity` exactly when the reference
+    says the value rounds to infinity (`NumAgrees`, `numOut` of `Proofs/ParseInv.lean`). -/
+theorem C04_parseNumber_correct (buf : List Nat) (len start : Nat) (t : Token)
+    (ht : scanToken (buf.drop start) = some t) (hlen : start + t.len ≤ len)
+    (hexp : (expVal t.exp).natAbs < 100000) (hg : nativeGuard t ((buf.drop start).drop t.len) = true) :
+    NumAgrees start len (scanNumber buf start) (numOut (parseNumber buf len start)) :=
+  Sonic.Proofs.NumberAll.parseNumber_correct buf len start t ht hlen hexp hg
+
+/-- **Malformed.**  Where the reference finds no number token, it answers `malformed` and `parseNumber` reports
+    `kParseErrorInvalidChar` (at some position `p`; `NumAgrees` does not constrain it and `Parser::Parse` clamps it
+    to `len_`). -/
+theorem C04_parseNumber_malformed (buf : List Nat) (len start : Nat) (h : scanToken (buf.drop start) = none) :
+    scanNumber buf start = .malformed ∧ (∃ p, parseNumber buf len start = .err errInvalidChar p) ∧
+    NumAgrees start len (scanNumber buf start) (numOut (parseNumber buf len start)) :=
+  ⟨(Sonic.Proofs.NumberAll.parseNumber_malformed buf len start h).1,
+    (Sonic.Proofs.NumberAll.parseNumber_malformed buf len start h).2,
+    Sonic.Proofs.NumberAll.parseNumber_malformed_agrees buf len start h⟩
+
+/-- **Shape of the outcome for every token (the "doomed" texts outside `nativeGuard` included).**  Wherever the
+    reference finds a token `t`, `parseNumber` stops at the end of that token: it returns some value with
+    `pos_ = start + t.len`, or `kParseErrorInfinity` with `pos_ = start + t.len`; never `kParseErrorInvalidChar`,
+    never the model's fault code. -/
+theorem C04_parseNumber_shape (buf : List Nat) (len start : Nat) (t : Token)
+    (ht : scanToken (buf.drop start) = some t) :
+    (∃ v p, parseNumber buf len start = .ok v (start + t.len) p) ∨
+    parseNumber buf len start = .err errInfinity (start + t.len) :=
+  Sonic.Proofs.NumberAll.parseNumber_shape buf len start t ht
+
+-- what can actually happen outside the guard: a wrong value, or `kParseErrorInfinity` where the reference sees a
+-- finite number followed by garbage (the document is rejected either way, but with a different error code)
+example : parseNumber [57,48,48,55,49,57,57,50,53,52,55,52,48,57,57,51,46,48,48,48,48,48,48,48,48,48,48,48,48,48,48,48,
+    48,48,48,48,48,48,48,48,48,48,48,48,48,48,48,49,46,51,101,57,57,57,120,34,120] 54 0 = .err errInfinity 48 := by
+  decide +kernel
+
+/-- **Buffer independence.**  `parseNumber buf len start` reads `buf` only from index `start` on. -/
+theorem C04_parseNumber_congr (buf buf' : List Nat) (len start : Nat) (h : buf.drop start = buf'.drop start) :
+    parseNumber buf len start = parseNumber buf' len start :=
+  Sonic.Proofs.NumberAll.parseNumber_congr buf buf' len start h
+
+/-- **The number model on the parser's buffer** (the form `NumberCorrectOn` needs).  `bs` is the input text and `buf`
+    any buffer that agrees with `bs ++ x"x ++ pad` from `start` on (`BufAt`: whatever the 61 padding bytes and
+    whatever earlier in-place string decoding left below `start`).  Then the reference scanner sees in `buf` exactly
+    what it sees in `bs` (the sentinel `x` stops every scan), and if every token it finds at `start` has a written
+    exponent below 100000 in magnitude and satisfies `nativeGuard` *in the text `bs`* — in particular if there is no
+    token at all — `parseNumber buf |bs| start` agrees with `scanNumber bs start`. -/
+theorem C04_number_agrees_padded (bs pad buf : List Nat) (start : Nat) (hs : start ≤ bs.length)
+    (hb : BufAt bs pad buf start)
+    (hgood : ∀ t, scanToken (bs.drop start) = some t →
+      (expVal t.exp).natAbs < 100000 ∧ nativeGuard t ((bs.drop start).drop t.len) = true) :
+    scanNumber buf start = scanNumber bs start ∧
+    NumAgrees start bs.length (scanNumber bs start) (numOut (parseNumber buf bs.length start)) :=
+  ⟨(Sonic.Proofs.NumberAll.scan_padded bs pad buf start hs hb.2).2,
+    Sonic.Proofs.NumberAll.number_agrees_padded bs pad buf start hs hb.2 hgood⟩
+
+/-- **`AtofNative` never faults, on any byte string** (valid number or not): no index into the 800-byte digit buffer
+    is out of range, `LeftShift`'s write index never goes negative, every table index is in range and no loop
+    exceeds its bound. -/
+theorem C04_native_never_faults (txt : List Nat) : (atofNative txt).2 = false :=
+  Sonic.Proofs.Dec.atofNative_nofault txt
 
 end Sonic.Props.C04
